@@ -176,6 +176,26 @@ def _r3_input(repo, report, rule):
     det = [x for x in calls(rrun) if chain(x.func) == "detect_file_format"]
     opn_r = [x for x in calls(rrun) if chain(x.func) == "xopen_rb_raise_limit"]
     ok_w = ok_w and len(det) == 1 and src(det[0].args[0]) == "files[0]" and len(opn_r) == 1
+    # the format the reader announces is the content-detected one on every path
+    def rhook(ex, node, env):
+        cn = chain(node.func)
+        if cn == "detect_file_format" and len(node.args) == 1:
+            return Obj("DETECTED:" + vkey(ex.ev(node.args[0], env)), nonnull=True)
+        if cn == "self._file_format_connection.send" and len(node.args) == 1:
+            ex.effect("io", "format-send", vkey(ex.ev(node.args[0], env)), node)
+            return Const(None)
+        if cn and (cn.endswith(".send") or cn.endswith(".send_bytes") or cn in ("self.shutdown", "self.send_to_worker", "traceback.format_exc", "sys.stdin.close", "os.fdopen")):
+            return Const(None)
+        return None
+
+    try:
+        rrows = explore(repo, strip_docstring(rrun.body), {"self": Obj("self", nonnull=True)}, call_hook=rhook, inline=False, max_rows=4000)
+        announced = sorted({e[2] for r in rrows for e in r.effects if e[0] == "io" and e[1] == "format-send" and e[2] != "-2" and not e[2].startswith("(")})
+    except Unrecognised as u:
+        announced = [f"<not analysable: {u.what[:60]}>"]
+    ok_src = bool(announced) and all(a.startswith("DETECTED:") and "[0]" in a for a in announced)
+    report.ob(rule, "reader announces the content-detected format on every path", ok_src, facts={"announced": announced}, expected="self._file_format_connection.send(detect_file_format(files[0]))", loc=repo.loc(rrun),
+              why="" if ok_src else "on some path the multi-core reader takes the format from somewhere else (e.g. the file name) while the single-core path decides by content: a misnamed file is then read differently with -j 1 and -j 2")
     report.ob(rule, "worker path: records parsed with the content-detected format", ok_w, facts={"InputFiles": kw, "format_string": src(ffs[0].value) if ffs else None, "detected_by": src(det[0]) if det else None},
               expected="reader: detect_file_format(files[0]); workers: InputFiles(..., fileformat=<that format>)", loc=repo.loc(wrun))
     # serial path: InputPaths.open -> InputFiles(..., fileformat=<content-detected>)
